@@ -159,7 +159,17 @@ class Analyzer:
 
     def atom_len(self, pl):
         """length of the slice/array/vec denoted by place pl (a place of slice/array type, or a reference to one)."""
-        c = self.fn.canon(pl)
+        fn = self.fn
+        # `&[T; N] as &[T]` (unsizing): the slice is the array
+        for _ in range(4):
+            if pl['p'] == ['deref'] or (pl['p'] and pl['p'][-1] == 'deref' and len(pl['p']) == 1):
+                sd = fn.single_def(pl['l'])
+                if sd and sd[2] == 'assign' and sd[3]['rv']['k'] == 'cast' and 'Unsi' in sd[3]['rv']['ck'] and is_place(sd[3]['rv']['op']):
+                    src = sd[3]['rv']['op']['pl']
+                    pl = {'l': src['l'], 'p': list(src['p']) + ['deref'], 'ty': ''}
+                    continue
+            break
+        c = fn.canon(pl)
         s = place_str(c)
         return 'len:' + s
 
@@ -961,7 +971,7 @@ class Analyzer:
         atoms = set(a for c in facts + list(goals) for a in c)
         self._collect_tys(atoms)
         facts = facts + self.type_facts(atoms) + self.array_len_facts(atoms)
-        res = [entails(facts, g) for g in goals]
+        res = [entails(facts, g) or self._minmax_entails(facts, g) for g in goals]
         if all(res) or not split:
             return all(res), facts, res
         # bounded case split (trace partitioning over an acyclic region): at the nearest join block that dominates
@@ -991,6 +1001,45 @@ class Analyzer:
                 break
         self._site = (site_block, site_idx)
         return allok, facts, ([True] * len(goals) if allok else res)
+
+    def _minmax_entails(self, facts, goal, depth=0):
+        """A goal that needs a LOWER bound of r = min(a, b) (or an UPPER bound of r = max(a, b)) holds if it holds with r
+        replaced by a and with r replaced by b (r is one of the two)."""
+        if depth > 3:
+            return False
+        fn = self.fn
+        for atom, k in goal.items():
+            m = re.match(r'^L(\d+)$', atom)
+            if not m:
+                continue
+            sd = fn.single_def(int(m.group(1)))
+            if not sd or sd[2] != 'call':
+                continue
+            n = callee_name(sd[3])
+            ismin = n.endswith('::min') and 'cmp' in n
+            ismax = n.endswith('::max') and 'cmp' in n
+            # goal is  (.. + k*r ..) <= 0 : a lower bound of r is needed when k < 0, an upper bound when k > 0
+            if not ((ismin and k < 0) or (ismax and k > 0)):
+                continue
+            saved = self._site
+            self._site = (sd[0], None)
+            alts = [self.ev_op(a) for a in sd[3]['args'][:2]]
+            self._site = saved
+            if any(a is None for a in alts):
+                continue
+            if not all(self.stable_between(self.mutable_atoms(a), ('def', sd[0], None), saved) for a in alts):
+                continue
+            ok = True
+            for a in alts:
+                g2 = dict(goal)
+                g2.pop(atom)
+                g2 = add(g2, scale(a, k))
+                if not (entails(facts, g2) or self._minmax_entails(facts, g2, depth + 1)):
+                    ok = False
+                    break
+            if ok:
+                return True
+        return False
 
     def nearest_join(self, b):
         """Nearest block that dominates b (b itself included), has >= 2 forward predecessors and is not a loop header
